@@ -32,4 +32,6 @@ MUTANTS = [
     {"id": "c19-hash-keeps-dtype", "prop": "C19", "rule": "R5", "key": "missing:dtype", "edits": [{"file": "utils.py", "old": "    canonical = np.ascontiguousarray(array, np.result_type(array, np.float64)) + 0.0", "new": "    canonical = np.ascontiguousarray(array) + 0.0"}]},
     {"id": "c19-hash-mixes-strides", "prop": "C19", "rule": "R5", "key": "raw:strides", "edits": [{"file": "utils.py", "old": "    return hash(canonical.tobytes())", "new": "    return hash((canonical.tobytes(), array.strides))"}]},
     {"id": "c19-twin-hash-astype", "prop": "C19", "rule": None, "twin": True, "edits": [{"file": "utils.py", "old": "    canonical = np.ascontiguousarray(array, np.result_type(array, np.float64)) + 0.0", "new": "    canonical = np.ascontiguousarray(array, dtype=np.result_type(array, np.float64))\n    canonical = canonical + 0.0"}]},
+    m("c19-make-triangular-in-place-mask", "R1", "    return np.tril(array) if lower else np.triu(array)", "    rows, cols = np.indices(array.shape)\n    array[(cols > rows) if lower else (cols < rows)] = 0\n    return array"),
+    m("c19-twin-make-triangular-where", None, "    return np.tril(array) if lower else np.triu(array)", "    rows, cols = np.indices(array.shape)\n    return np.where((cols <= rows) if lower else (cols >= rows), array, 0)", twin=True),
 ]
